@@ -72,6 +72,17 @@ def harness(eng, ctx):
         return
     eng.prove(arr[0] == val, 'C15: array and scalar arguments give the same value')
     eng.prove(arr[1] == tmin, 'C15: array element at the lowest knot is the minimum')
+    # whole-millimetre levels given as an integer array
+    wi = eng.int('w_int')
+    eng.assume(wi <= zs[-1])
+    eng.assume(wi >= zs[0] - 5)
+    try:
+        vi = T(wi)
+        ai = T(nplite.array([wi], dtype=int))
+    except Exception as e:
+        eng.fail_exception(e, label='C15: integer level fails')
+        return
+    eng.prove(ai[0] == vi, 'C15: an integer-typed array gives the same value as the scalar', detail='level w_int')
     # monotone: T(w2) - T(w) is the integral over [w, w2] of a positive integrand.  With the
     # integral uninterpreted this is checked as: both values use I(z0, .) of the same integrand
     # and the code takes no other route (additivity of integrals is a fact of analysis).
@@ -113,7 +124,8 @@ def replay_concrete(n, m):
     Ks = [float(m.get('K%d' % i, 1)) for i in range(n)]
     tmin = float(m.get('T_min', 1))
     w = float(m.get('w', zs[0]))
-    info = {'zeta_knots_mm': zs, 'K_knots_km_d': Ks, 'T_min': tmin, 'w': w}
+    wi = int(m.get('w_int', 0)) if 'w_int' in m else None
+    info = {'zeta_knots_mm': zs, 'K_knots_km_d': Ks, 'T_min': tmin, 'w': w, 'w_int': wi}
     if any(k <= 0 for k in Ks) or any(b <= a for a, b in zip(zs, zs[1:])) or max(Ks) / min(Ks) > 1e12:
         info['skipped'] = 'model not usable in doubles'
         return True, info
@@ -126,6 +138,16 @@ def replay_concrete(n, m):
         return (w >= zs[-1]), info         # the very top knot raises NotImplementedError by design
     want = closed_form(zs, Ks, tmin, w)
     info.update(value=v, closed_form=want, array=[float(x) for x in arr])
+    if wi is not None and zs[0] - 5 <= wi < zs[-1]:
+        try:
+            a_i = float(T(np.array([wi]))[0])
+            s_i = float(T(float(wi)))
+            info.update(int_array_value=a_i, scalar_value_at_int=s_i)
+            if abs(a_i - s_i) > 1e-9 * max(1.0, abs(s_i)):
+                return False, info
+        except Exception as e:
+            info['real_exception'] = '%s: %s' % (type(e).__name__, e)
+            return False, info
     ok = abs(v - want) <= 1e-6 * max(1.0, abs(want)) and abs(float(arr[0]) - v) <= 1e-12 * max(1.0, abs(v)) and float(arr[1]) == tmin
     return ok, info
 
